@@ -377,7 +377,12 @@ def r3_failures(ctx, rid="C14.R3"):
               "the decoder's Err(String) is returned after %s; other uses of it: %s (must be exactly serde::de::Error::custom)" % (
                   [show(e) for e in returned] or "nothing", [e["detail"] for e in unknown] or "none"), (fw, cbb))
     sites = [e["bb"] for e in returned if e["bb"] is not None]
-    split = result_split(fw, ct["dest"]["l"])
+    # where the decoder's Result -- or the Result it was moved / wrapped and transposed into (`Some(r).transpose()?`) -- is split
+    split = None
+    for l in [ct["dest"]["l"]] + [x for x in ends.results if x != ct["dest"]["l"]]:
+        split = result_split(fw, l)
+        if split:
+            break
     feas = L.Feas(fw)
     oks = L.ok_sites(fw)
     if split:
@@ -451,38 +456,49 @@ def r4_token_wins(ctx, rid="C14.R4"):
     sch = ctx.ds.adts.get("pagination::SchemaPaginationParams")
     names = [fl["name"] for fl in sch["variants"][0]["fields"]] if sch else []
     ctx.check(R, "key-is-the-documented-parameter", "page_token" in names and "limit" in names, "schema struct documents query parameters %s; the lookup key is \"page_token\"" % names, (fw, gbb), nontrivial=False)
-    # the test of the lookup result, in any spelling (match / if let / let-else / is_some)
-    sw = [(sbb, st, nt) for sbb, st, nt, optop in L.option_edges(fw) if L.only_call(L.trace(fw, optop, PLUMBING)[0], r"::get$", gbb, ())]
-    if len(sw) != 1:
-        ctx.lost(R, "the Some/None test of the result of get(\"page_token\") (%d tests)" % len(sw))
-        return
-    sbb, some_t, none_t = sw[0]
+    # the test(s) of the presence of the key, in any spelling (match / if let / let-else / is_some), directly on the lookup
+    # result or on an Option that is Some exactly when it is (`get(k).map(decode).transpose()?` matched afterwards)
     feas = L.Feas(fw)
-    some_r, none_r = feas.after_edge(sbb, some_t), feas.after_edge(sbb, none_t)
+    tests = L.presence_tests(fw, feas, lambda o: o.is_call(r"::get$", gbb, ()), PLUMBING)
+    if not tests:
+        ctx.lost(R, "the Some/None test of the result of get(\"page_token\") (0 tests)")
+        return
+    sbb, some_t, none_t = tests[0]
+    some_r = set().union(*[feas.after_edge(s, st_) for s, st_, nt_ in tests])
+
+    def on_some(bb):
+        return any(feas.edge_dominates(s, st_, bb) for s, st_, nt_ in tests)
+
+    def on_none(bb):
+        return any(feas.edge_dominates(s, nt_, bb) for s, st_, nt_ in tests)
     dps = fw.live_calls(DE)
     fms = fw.live_calls(r"^from_map::from_map$")
     pages, _ = L.ok_payload(fw)
     nexts = [o for o in pages if o.kind == "agg" and o.info.get("adt") == "pagination::WhichPage" and o.info.get("variant") == "Next" and not o.proj]
     firsts = [o for o in pages if o.kind == "agg" and o.info.get("adt") == "pagination::WhichPage" and o.info.get("variant") == "First" and not o.proj]
     others = [o for o in pages if o not in nexts and o not in firsts]
-    ctx.check(R, "some-arm-decodes-the-token", len(dps) == 1 and all(feas.edge_dominates(sbb, some_t, bb) for bb, _ in dps),
+    ctx.check(R, "some-arm-decodes-the-token", len(dps) == 1 and all(on_some(bb) for bb, _ in dps),
               "deserialize_page_token call sites: %d, all on the Some edge" % len(dps), (fw, sbb))
     for bb, t in dps:
         o, _ = L.trace(fw, t["args"][0], PLUMBING + STR_VIEWS)
         ctx.check(R, "decoder-input-is-the-token-value", L.only_call(o, r"::get$", gbb, L.SOME_0),
                   "deserialize_page_token's argument originates from %s (must be the Some payload of get(\"page_token\"))" % L.describe(o), (fw, bb))
-    ctx.check(R, "some-arm-ignores-scan-params", not any(bb in some_r for bb, _ in fms) and not any(o.bb in some_r for o in firsts),
-              "from_map / WhichPage::First reachable on the Some edge: %s" % ([bb for bb, _ in fms if bb in some_r] != [] or [o.bb for o in firsts if o.bb in some_r] != []), (fw, some_t))
+    # with a token present nothing else is consulted: a from_map call / a First page either sits where some test of the
+    # presence has taken its None edge, or (from_map only) cannot execute after any Some edge
+    bad_fm = [bb for bb, _ in fms if not on_none(bb) and bb in some_r]
+    bad_first = [o.bb for o in firsts if not on_none(o.bb)]
+    ctx.check(R, "some-arm-ignores-scan-params", not bad_fm and not bad_first,
+              "from_map / WhichPage::First reachable on the Some edge: %s" % (bad_fm != [] or bad_first != []), (fw, some_t))
     ok_next = len(nexts) >= 1 and not others
     for o in nexts:
         po, _ = L.trace(fw, o.info["fields"][0], PLUMBING)
-        ok_next = ok_next and len(dps) == 1 and L.only_call(po, DE, dps[0][0], L.OK_0) and feas.edge_dominates(sbb, some_t, o.bb)
+        ok_next = ok_next and len(dps) == 1 and L.only_call(po, DE, dps[0][0], L.OK_0) and on_some(o.bb)
     ctx.check(R, "next-is-the-decoded-selector", ok_next, "returned pages: %s; WhichPage::Next(..) sites %d: payload is the Ok payload of deserialize_page_token, on the Some edge" % (L.describe(pages), len(nexts)), fw)
     ok_first = len(firsts) >= 1 and len(fms) >= 1 and not others
     for o in firsts:
         po, _ = L.trace(fw, o.info["fields"][0], PLUMBING)
-        ok_first = ok_first and len(po) == 1 and po[0].is_call(r"^from_map::from_map$", None, L.OK_0) and po[0].bb in [bb for bb, _ in fms] and feas.edge_dominates(sbb, none_t, o.bb)
-    ctx.check(R, "first-is-from_map-on-none-arm", ok_first and not any(bb in none_r for bb, _ in dps) and not any(o.bb in none_r for o in nexts),
+        ok_first = ok_first and len(po) == 1 and po[0].is_call(r"^from_map::from_map$", None, L.OK_0) and po[0].bb in [bb for bb, _ in fms] and on_none(o.bb)
+    ctx.check(R, "first-is-from_map-on-none-arm", ok_first and all(on_some(bb) for bb, _ in dps) and all(on_some(o.bb) for o in nexts),
               "WhichPage::First(..) sites %d: payload is the Ok payload of from_map(raw params), only on the None edge; no token decoding on the None edge" % len(firsts), fw)
     # from_map reads the same map that was searched
     b, _ = L.trace(fw, gt["args"][0], PLUMBING)
@@ -642,7 +658,42 @@ _CLAMP = ".map(|limit| min(limit, server_config.page_max_nitems))"
 _SOME_ARM = """        Some(page_token) => {
             let page_start = deserialize_page_token(&page_token)"""
 
+_WHICH_BODY = """    match raw_params.get("page_token") {
+        Some(page_token) => {
+            let page_start = deserialize_page_token(&page_token)
+                .map_err(serde::de::Error::custom)?;
+            Ok(WhichPage::Next(page_start))
+        }
+        None => {
+            let scan_params =
+                from_map(&raw_params).map_err(serde::de::Error::custom)?;
+            Ok(WhichPage::First(scan_params))
+        }
+    }
+}
+"""
+_TWO_STEP = """    let resume_from: Option<PageSelector> = raw_params
+        .get("page_token")
+        .map(|token| deserialize_page_token(token))
+        .transpose()
+        %s
+    %smatch resume_from {
+        Some(page_start) => Ok(WhichPage::Next(page_start)),
+        None => from_map(&raw_params).map(WhichPage::First).map_err(serde::de::Error::custom),
+    }
+}
+"""
+
 SELFTEST = [
+    {"name": "whichpage-two-step-transpose", "kind": "benign", "edits": [(PG, _WHICH_BODY, _TWO_STEP % (".map_err(serde::de::Error::custom)?;", ""))],
+     "why": "behaviour-preserving: first `get(k).map(decode).transpose().map_err(custom)?` yields an Option<PageSelector>, then a match on that Option; the second test is Some exactly when the key is present "
+            "(lib_c14.presence_tests), so from_map still happens only without a token"},
+    {"name": "whichpage-two-step-reads-scan-params", "kind": "mutant", "expect": ["C14.R4"],
+     "edits": [(PG, _WHICH_BODY, _TWO_STEP % (".map_err(serde::de::Error::custom)?;", "let _scan: ScanParams = from_map(&raw_params).map_err(serde::de::Error::custom)?;\n    "))],
+     "why": "twin of whichpage-two-step-transpose: the scan parameters are parsed (and their errors returned) between the two steps, also when a token is present"},
+    {"name": "whichpage-two-step-error-falls-back", "kind": "mutant", "expect": ["C14.R3", "C14.R4"],
+     "edits": [(PG, _WHICH_BODY, _TWO_STEP % (".unwrap_or(None);", ""))],
+     "why": "twin of whichpage-two-step-transpose: a malformed token becomes `no token` and the scan silently restarts from the first page"},
     {"name": "dec-rejects-ge-max", "kind": "mutant", "edits": [(PG, _DEC_BOUND, "if token_str.len() >= MAX_TOKEN_LENGTH {")], "expect": ["C14.R2"],
      "why": "a 512-byte token is issued but refused (Appendix B)"},
     {"name": "enc-bound-1024", "kind": "mutant", "edits": [(PG, _ENC_BOUND, "if token_bytes.len() > 1024 {")], "expect": ["C14.R2"],
@@ -872,4 +923,6 @@ fn check_generated_token_length(token: String) -> Result<String, HttpError> {
 """)],
      "expect": ["C14.R3", "C14.R4"], "why": "twin of whichpage-guard-clause-const-key: a malformed token falls through to the first-page path instead of being refused"},
 ]
+LEVEL_TEXT += (" R4 accepts any test of the presence of the token: the test of the lookup result or of an Option built as Some exactly on its Some edge and None exactly on its None edge "
+               "(`get(k).map(decode).transpose()?` matched afterwards; lib_c14.presence_tests); from_map / First must sit behind a None edge of such a test, decoding / Next behind a Some edge.")
 LEVEL_TEXT += " Also (R6): no integer of the pagination path is narrowed or re-signed by an `as` cast."
